@@ -336,10 +336,22 @@ def c06(tier, seed):
             rep.nontrivial(t["id"])
             nexec += sum(len(v2) for v2 in t["log"].values())
         rep.sample(_sample_of(job, run, t, m, v))
+    # outside an episode: a warmup that was not asked to profile executes no step function
+    wj = [dict(kind="pyfunc", module="harness.jobs_async", func="warmup_exec_job", id=f"c06w{i}", cfg=cfg, seed=seed + i, timeout=600)
+          for i, cfg in enumerate(_graphs(seed + 600, 2))]
+    for r in common.run_jobs(wj, timeout=900):
+        if not r.get("ok"):
+            raise common.MachineryError(r.get("error", "")[-2500:])
+        for x in r["results"]:
+            rep.cov["evaluations"] += 1
+            if x["executions"]:
+                rep.violation(dict(kind="warmup_executes_step_functions", jit_step=x["jit_step"]), dict(kind="warmup_exec", job={k: r["job"][k] for k in ("id", "cfg", "seed")}, result=x),
+                              text=f"{r['job']['id']}: AsyncGraph.warmup(profile={{one node: False}}, jit_step={x['jit_step']}) executed step functions {x['executions']} times "
+                                   f"(nodes {x['nodes']}) although no node was to be profiled")
     compiledchecks.c06_compiled(rep, tier, seed)
     rep.cov["rule"] = ("threaded runtime: per graph one reset/step episode (every 3rd step overridden through step(gs, ss, out)) and one run() episode, "
                        "jit_step on / off / mixed per node; the probe log must contain exactly one execution per recorded tick with that tick's sequence "
-                       "number, none for overridden supervisor ticks and for the tick cancelled by stop(). compiled runtime: see compiled_part")
+                       "number, none for overridden supervisor ticks and for the tick cancelled by stop(); a warmup not asked to profile executes none. compiled runtime: see compiled_part")
     rep.cov["step_executions_checked"] = nexec
     return rep.finish()
 
